@@ -156,6 +156,7 @@ func checkErrSeq(c *Check, p *Prog, name string, d *wfDesc) {
 		return
 	}
 	// nothing else runs on the error path
+	ax := exitAxioms(S, d.Sum)
 	var others []string
 	for _, it := range d.Sum.Top.Items {
 		switch e := it.(type) {
@@ -163,14 +164,14 @@ func checkErrSeq(c *Check, p *Prog, name string, d *wfDesc) {
 			if e.Dead || e == found || e.Kind == "rundefers" || e.Seq < d.Read.Seq {
 				continue
 			}
-			if !S.Exclusive(e.Guard, found.Guard) {
+			if !S.Implies(S.And(ax, e.Guard), S.Not(found.Guard)) {
 				others = append(others, e.String(p))
 			}
 		case *LoopS:
 			if e == d.Sample || e.ID < d.Sample.ID {
 				continue
 			}
-			if !S.Exclusive(e.Guard, found.Guard) {
+			if !S.Implies(S.And(ax, e.Guard), S.Not(found.Guard)) {
 				others = append(others, "loop at "+loopWhere(p, e))
 			}
 		}
@@ -178,8 +179,8 @@ func checkErrSeq(c *Check, p *Prog, name string, d *wfDesc) {
 	// within the iteration nothing follows the read on the error edge
 	errT := d.errOf(d.Read)
 	errG := S.Canon(S.And(d.Read.Guard, S.Not(S.Cmp("==", errT, S.Nil))))
-	d.Sample.Body.Events(func(e *Event, _ []*LoopS) {
-		if e.Seq > d.Read.Seq && !S.Exclusive(e.Guard, errG) {
+	d.Sample.Body.Events(func(e *Event, loops []*LoopS) {
+		if e.Seq > d.Read.Seq && !S.Exclusive(outerGuard(e, loops), errG) {
 			others = append(others, e.String(p))
 		}
 	})
